@@ -494,6 +494,17 @@ impl Value {
             (&Value::TimeMicros(_), &Schema::TimeMicros) => None,
             (&Value::TimeMillis(_), &Schema::TimeMillis) => None,
             (&Value::Date(_), &Schema::Date) => None,
+            // A decimal backed by a fixed has to fit into it
+            (
+                Value::Decimal(decimal),
+                Schema::Decimal(DecimalSchema {
+                    inner: InnerDecimalSchema::Fixed(FixedSchema { size, .. }),
+                    ..
+                }),
+            ) => decimal
+                .to_sign_extended_bytes_with_len(*size)
+                .err()
+                .map(|e| format!("The decimal does not fit into the fixed of size {size}: {e}")),
             (&Value::Decimal(_), &Schema::Decimal { .. }) => None,
             (&Value::BigDecimal(_), &Schema::BigDecimal) => None,
             (&Value::Duration(_), &Schema::Duration(_)) => None,
